@@ -16,6 +16,7 @@ func init() {
 			k.NoFaults, k.PFault, k.PErr, k.PPanic = false, 30, 55, 30
 			k.PFaultKind = 25
 			k.PCallback = 12 // a callback must not change what a failure does
+			k.PErr2 = 8      // two error results, both non-nil on failure
 			k.PSide = 8
 			k.PRecover = 65
 			k.WInvoke = 11
@@ -41,6 +42,7 @@ func init() {
 			k.NoFaults, k.PFault, k.PErr, k.PPanic = false, 28, 55, 40
 			k.PFaultKind = 45
 			k.PCallback = 15 // a callback must not change how a panic / error surfaces
+			k.PErr2 = 8      // two error results: the root cause is one of the function's own errors
 			k.PRecover = 50
 			k.PHole = 60
 			k.PAvail = 90
@@ -75,6 +77,7 @@ func init() {
 			bk.PFaultKind = 30
 			bk.PLocPC = 12
 			bk.PRepeat = 25 // the same function registered again (other scope / rejected duplicate)
+			bk.PErr2 = 8    // functions with two error results: the callback's Error must lead to one of them
 			bk.WInvoke, bk.WDecorate = 8, 3
 			bk.PDeep, bk.PChain = 70, 50
 			bk.MaxOps = 20
